@@ -31,6 +31,59 @@ def lemma_obligations():
     return out
 
 
+def bounded_roundtrip(run, tier, replay_line=None):
+    """Bounded stand-in (labelled bounded, never counted as proved) for the structure-level sentence of C06: the header of
+    corpus/textrt/text_rt.emb is generated in this run, a native driver (ASan+UBSan) writes every enumerated Ok buffer as text
+    under every re-readable option set, reads it back into a zeroed buffer and compares with Equals."""
+    import os
+    import shutil
+    import subprocess
+    import tempfile
+    import time
+    t0 = time.time()
+    tdir = os.path.join(core.VERIF, "corpus", "textrt")
+    os.makedirs(core.BUILD, exist_ok=True)
+    d = tempfile.mkdtemp(prefix="c06rt_", dir=core.BUILD)
+    try:
+        r = subprocess.run([os.sys.executable, os.path.join(core.REPO, "embossc"), "--output-path", d, "--output-file", "text_rt.emb.h", "--import-dir", core.REPO,
+                            os.path.join(tdir, "text_rt.emb")], capture_output=True, text=True, env=dict(os.environ, PYTHONPATH=core.REPO), cwd=tdir)
+        if r.returncode != 0:
+            raise core.CheckerError("embossc rejected corpus/textrt/text_rt.emb:\n" + (r.stdout + r.stderr)[-1200:])
+        exe = os.path.join(d, "rt")
+        r = subprocess.run(["clang++", "-std=c++14", "-O1", "-g", "-fsanitize=address,undefined", "-fno-sanitize-recover=all", "-w", "-I" + core.REPO, "-I" + d,
+                            os.path.join(tdir, "roundtrip.cc"), "-o", exe], capture_output=True, text=True)
+        if r.returncode != 0:
+            run.add(core.Obligation("bounded.text-roundtrip.driver-compiles", core.BFAIL, "clang++", 0.0, kind="bounded", model={"errors": r.stderr[-1500:]},
+                                    detail="the round-trip driver does not compile against the generated header", replay={"reproduced": True, "inputs": "corpus/textrt/roundtrip.cc"}))
+            return
+        n = 200 if tier == "quick" else 5000
+        rr = subprocess.run([exe, str(run.seed), str(n)], capture_output=True, text=True, timeout=3000,
+                            env=dict(os.environ, ASAN_OPTIONS="detect_leaks=0", UBSAN_OPTIONS="print_stacktrace=0"))
+        out = rr.stdout
+        import re
+        m = re.search(r"TRIPS (\d+) FAILURES (\d+) MULTILINE-ARRAY-FAILURES (\d+) NOT-OK-BUFFERS (\d+)", out)
+        if not m:
+            run.add(core.Obligation("bounded.text-roundtrip.no-sanitizer-report", core.BFAIL, "native ASan/UBSan", time.time() - t0, kind="bounded",
+                                    model={"exit": rr.returncode, "stderr": rr.stderr[-1500:], "stdout": out[-500:]}, detail="the driver died (sanitizer report or abort)",
+                                    replay={"reproduced": True, "inputs": "seed %d, %d buffers" % (run.seed, n)}))
+            return
+        trips, fails, known, skipped = (int(x) for x in m.groups())
+        first = [l for l in out.splitlines() if l.startswith("FAIL ")]
+        firstk = [l for l in out.splitlines() if l.startswith("FAIL-MULTILINE-ARRAY")]
+        run.add(core.Obligation("bounded.text-roundtrip[Scalars,Shapes,Nesting x base 2/10/16 x grouping x single-line|multi-line|multi-line+comments]",
+                                core.BPASS if fails == 0 else core.BFAIL, "native ASan/UBSan", time.time() - t0, kind="bounded",
+                                model={"first_failure": first[0][:1500]} if first else None, detail="%d round trips, %d failures" % (trips, fails),
+                                replay=None if not first else {"reproduced": True, "inputs": first[0][:600]}))
+        run.add(core.Obligation("bounded.text-roundtrip.multi-line-output-of-arrays-with-two-or-more-elements", core.BPASS if known == 0 else core.BFAIL, "native ASan/UBSan", 0.0,
+                                kind="bounded", model={"first_failure": firstk[0][:600]} if firstk else None, detail="%d failing round trips" % known,
+                                replay=None if not firstk else {"reproduced": True, "inputs": firstk[0][:600]}))
+        run.bounded.append({"what": "UpdateFromText(WriteToString(view, options)) == view on enumerated Ok buffers (edge values 0, 2^k-1, 2^k, 2^63, 2^64-1, named and unnamed enum values, "
+                                    "valid Bcd, + seeded random) of 3 structures x 18 re-readable option sets", "evaluations": trips, "distinct_nontrivial": trips,
+                            "seconds": round(time.time() - t0, 1), "bound": "%d buffers per structure, seed %d" % (16 + n, run.seed)})
+    finally:
+        shutil.rmtree(d, ignore_errors=True)
+
+
 def main(args):
     run = core.Run("C06", args.tier, "proof", "./check C06 --tier " + args.tier)
     from contracts import text_codec
@@ -61,13 +114,14 @@ def main(args):
             ob.replay = viewcheck.replay_obligation(ob2, idx)
             n += 1
     run.extend(lemma_obligations())
+    bounded_roundtrip(run, args.tier)
     run.function("compiler.back_end.cpp.header_generator._generate_structure_definition (the loop over fields_in_dependency_order)",
                  "pyvc: statement-level (slice) contract, loop body executed from a symbolic pre-state for every attribute/read-only/virtual/anonymous combination")
     run.function("emboss::support::DecodeInteger<T> for T in {int,uint}{8,16,32,64}_t",
                  "llvc: real template, loop cutpoint with invariant over recursively defined spec functions (arbitrary text length); accepts exactly the valid in-range numerals, result == value, text unchanged, no trap / out-of-bounds read")
     run.function("emboss::support::WriteIntegerToTextStream<Stream,T> for the same T, base in {2,10,16}, digit grouping on/off",
                  "llvc: real template, path splitting on the digit-loop trip count (complete: the loop is bounded by the operand width); output is the canonical numeral of the value; stack buffer never overrun")
-    run.extra["not_covered"] = ["UpdateFromText(WriteToString(view)) round trip at structure level (std::string / std::vector token reader, per-structure generated text methods)",
+    run.extra["not_covered"] = ["a PROOF of the structure-level UpdateFromText(WriteToString(view)) round trip (std::string / std::vector token reader, per-structure generated text methods are outside both engines): a bounded native stand-in is run instead and labelled bounded",
                                 "text output options other than base and digit grouping (multi-line, comments, indentation)", "floating-point and enum-name text codecs"]
     run.extra["composition"] = ("decode(encode(v)) == v: encoder post (canonical numeral c with NUM(c) == v) + decoder post (accepts every valid in-range numeral and returns NUM) + "
                                 "lemma.horner-equals-positional / lemma.division-chain-sum / lemma.horner-magnitude-monotone (z3, linear integer arithmetic); the substitution steps and the "
